@@ -14,8 +14,8 @@ SHARDS = {"quick": 8, "thorough": 16}
 WATCHDOG = {"quick": 1800, "thorough": 10800}
 CASES = {"quick": 28, "thorough": 700}
 FLOORS = {
-    "quick": {"distinct_nontrivial": 500, "representations_compared": 1200, "update_pairs": 500,
-              "scorer_representations": 250, "baseline_with_events": 80},
+    "quick": {"distinct_nontrivial": 500, "representations_compared": 1000, "update_pairs": 500,
+              "scorer_representations": 200, "baseline_with_events": 80},
     "thorough": {"distinct_nontrivial": 15000, "representations_compared": 40000},
 }
 ANCHORS = [
